@@ -3,8 +3,10 @@ import Solvor.Sat.Theorems
 #print axioms Solvor.Sat.dpll_sat_iff
 #print axioms Solvor.Sat.dpll_unsat_iff
 #print axioms Solvor.Sat.evalCnf_iff
+#print axioms Solvor.Sat.evalCnf_models
 #print axioms Solvor.Sat.resolve_sound
 #print axioms Solvor.Sat.learn_chain_sound
+#print axioms Solvor.Sat.entailsB_iff
 #print axioms Solvor.Sat.luby_pos
 #print axioms Solvor.Sat.luby_pow2
 #print axioms Solvor.Sat.luby_fuel
